@@ -331,3 +331,15 @@ Definition expected_process_state (reports : bool) : list string :=
   (if reports then ["merchant_utils:_reported_load_errors"] else []) ++
   ["merchant_utils:global@clear_engine_cache:_cached_engine,_cached_engine_path";
    "merchant_utils:global@get_all_rules:_cached_engine,_cached_engine_path"].
+
+(* Write discipline of the objects a classification goes through (what C07/Args.v's good design means in the
+   source): engine state is written only while constructing / parsing; match and its helpers write nothing through
+   their parameters; the evaluator is built per evaluation with a new empty scope and writes only to that scope;
+   a TransactionContext is written only by its constructor. *)
+Definition expected_engine_state_writers : list string := ["__init__"; "_add_rule"; "parse"].
+Definition expected_add_rule_callers : list string := ["parse"].
+Definition expected_evaluator_attrs : list string := ["_scope"; "ctx"].
+Definition expected_scope_writers : list string := ["_eval_NamedExpr"; "_eval_comprehension_loop"; "_generator_helper"].
+Definition expected_evaluator_sites : list string :=
+  ["expr_parser:evaluate_transaction"; "expr_parser:evaluate_transaction_ast";
+   "merchant_utils:_resolve_dynamic_tags"; "merchant_utils:apply_transforms"].
